@@ -40,3 +40,449 @@ enc_int!(enc_u16, u16);
 enc_int!(enc_u32, u32);
 // @unit name=enc_u64 props=C11 kind=complete fns=FixedLengthEncoding<u64>::encode,FixedLengthEncoding<u64>::decode
 enc_int!(enc_u64, u64);
+
+// Contract (C11): bool: encode(false) < encode(true) bytewise, equal iff equal, decode inverts encode.
+// @unit name=enc_bool props=C11 kind=complete fns=FixedLengthEncoding<bool>::encode,FixedLengthEncoding<bool>::decode
+#[kani::proof]
+fn enc_bool() {
+    let a: bool = kani::any();
+    let b: bool = kani::any();
+    let (ea, eb) = (a.encode(), b.encode());
+    assert!(lex(&ea, &eb) == (a as u8).cmp(&(b as u8)));
+    assert!((ea == eb) == (a == b));
+    assert!(<bool as FixedLengthEncoding>::decode(ea) == a);
+    kani::cover!(!a && b);
+    kani::cover!(a && !b);
+}
+
+// Contract (C11): floats, for ALL bit patterns (NaN payloads, -0.0, subnormals, infinities):
+// lexicographic byte order of the encodings == order of the IEEE-754 totalOrder keys (spec::keyNN,
+// sign-magnitude -> two's complement; written independently of arrow's `compare`/`total_cmp`);
+// encodings are equal iff the bit patterns are equal; decode(encode(x)) has the same bit pattern as x.
+macro_rules! enc_float {
+    ($name:ident, $t:ty, $bits:ty, $key:ident) => {
+        #[kani::proof]
+        fn $name() {
+            let ab: $bits = kani::any();
+            let bb: $bits = kani::any();
+            let (a, b) = (<$t>::from_bits(ab), <$t>::from_bits(bb));
+            let (ea, eb) = (a.encode(), b.encode());
+            assert!(lex(&ea, &eb) == $key(ab).cmp(&$key(bb)));
+            assert!((ea == eb) == (ab == bb));
+            assert!(<$t as FixedLengthEncoding>::decode(ea).to_bits() == ab);
+            kani::cover!($key(ab) < $key(bb));
+            kani::cover!($key(ab) > $key(bb));
+            kani::cover!(a.is_nan() && b.is_nan() && ab != bb);          // two different NaN payloads
+            kani::cover!(ab == 0 && bb == (1 as $bits).rotate_right(1)); // +0.0 vs -0.0
+        }
+    };
+}
+// @unit name=enc_f16 props=C11,C10 kind=complete fns=FixedLengthEncoding<f16>::encode,FixedLengthEncoding<f16>::decode
+enc_float!(enc_f16, f16, u16, key16);
+// @unit name=enc_f32 props=C11,C10 kind=complete fns=FixedLengthEncoding<f32>::encode,FixedLengthEncoding<f32>::decode
+enc_float!(enc_f32, f32, u32, key32);
+// @unit name=enc_f64 props=C11,C10 kind=complete fns=FixedLengthEncoding<f64>::encode,FixedLengthEncoding<f64>::decode
+enc_float!(enc_f64, f64, u64, key64);
+
+// Contract (C11): i256: byte order of encodings == signed order of (high: i128, low: u128) pairs
+// (value = high*2^128 + low); equal iff both limbs equal; decode inverts encode limb-exactly.
+// @unit name=enc_i256 props=C11 kind=complete fns=FixedLengthEncoding<i256>::encode,FixedLengthEncoding<i256>::decode
+#[kani::proof]
+fn enc_i256() {
+    let (al, ah): (u128, i128) = (kani::any(), kani::any());
+    let (bl, bh): (u128, i128) = (kani::any(), kani::any());
+    let a = i256::from_parts(al, ah);
+    let b = i256::from_parts(bl, bh);
+    let (ea, eb) = (a.encode(), b.encode());
+    let want = if ah != bh { ah.cmp(&bh) } else { al.cmp(&bl) };
+    assert!(lex(&ea, &eb) == want);
+    assert!((ea == eb) == (ah == bh && al == bl));
+    assert!(<i256 as FixedLengthEncoding>::decode(ea).to_parts() == (al, ah));
+    kani::cover!(ah == bh && al < bl);
+    kani::cover!(ah < 0 && bh >= 0);
+    kani::cover!(want == Ordering::Greater);
+}
+
+// Contract (C11): IntervalDayTime: byte order of encodings == lexicographic order of (days, milliseconds)
+// (the derive(Ord) field order of the Arrow type); equal iff both fields equal; decode inverts encode.
+// @unit name=enc_interval_day_time props=C11 kind=complete fns=FixedLengthEncoding<IntervalDayTime>::encode,FixedLengthEncoding<IntervalDayTime>::decode
+#[kani::proof]
+fn enc_interval_day_time() {
+    let a = IntervalDayTime { days: kani::any(), milliseconds: kani::any() };
+    let b = IntervalDayTime { days: kani::any(), milliseconds: kani::any() };
+    let (ea, eb) = (a.encode(), b.encode());
+    let want = if a.days != b.days { a.days.cmp(&b.days) } else { a.milliseconds.cmp(&b.milliseconds) };
+    assert!(lex(&ea, &eb) == want);
+    assert!((ea == eb) == (a.days == b.days && a.milliseconds == b.milliseconds));
+    let d = <IntervalDayTime as FixedLengthEncoding>::decode(ea);
+    assert!(d.days == a.days && d.milliseconds == a.milliseconds);
+    kani::cover!(a.days == b.days && a.milliseconds < b.milliseconds);
+    kani::cover!(a.days < b.days && a.milliseconds > b.milliseconds);
+    kani::cover!(want == Ordering::Greater);
+}
+
+// Contract (C11): IntervalMonthDayNano: byte order of encodings == lexicographic order of
+// (months, days, nanoseconds); equal iff all fields equal; decode inverts encode.
+// @unit name=enc_interval_month_day_nano props=C11 kind=complete fns=FixedLengthEncoding<IntervalMonthDayNano>::encode,FixedLengthEncoding<IntervalMonthDayNano>::decode
+#[kani::proof]
+fn enc_interval_month_day_nano() {
+    let a = IntervalMonthDayNano { months: kani::any(), days: kani::any(), nanoseconds: kani::any() };
+    let b = IntervalMonthDayNano { months: kani::any(), days: kani::any(), nanoseconds: kani::any() };
+    let (ea, eb) = (a.encode(), b.encode());
+    let want = if a.months != b.months { a.months.cmp(&b.months) }
+        else if a.days != b.days { a.days.cmp(&b.days) }
+        else { a.nanoseconds.cmp(&b.nanoseconds) };
+    assert!(lex(&ea, &eb) == want);
+    assert!((ea == eb) == (a.months == b.months && a.days == b.days && a.nanoseconds == b.nanoseconds));
+    let d = <IntervalMonthDayNano as FixedLengthEncoding>::decode(ea);
+    assert!(d.months == a.months && d.days == a.days && d.nanoseconds == a.nanoseconds);
+    kani::cover!(a.months == b.months && a.days == b.days && a.nanoseconds < b.nanoseconds);
+    kani::cover!(a.months < b.months && a.days > b.days);
+    kani::cover!(want == Ordering::Greater);
+}
+
+// ---------------------------------------------------------------------------------------------
+// Row level (two rows): validity byte + value bytes under all four SortOptions.
+// ---------------------------------------------------------------------------------------------
+use arrow_array::types::{Float32Type, Int32Type};
+use arrow_array::Array;
+use arrow_buffer::Buffer;
+
+/// Specification of the column order on optional values (SQL ORDER BY semantics of SortOptions):
+/// null vs null = Equal; null vs value = Less iff nulls_first (independent of `descending`);
+/// value vs value = key order, reversed iff descending.
+fn spec_cmp_opt<K: Ord>(a: Option<K>, b: Option<K>, o: SortOptions) -> Ordering {
+    match (a, b) {
+        (None, None) => Ordering::Equal,
+        (None, Some(_)) => if o.nulls_first { Ordering::Less } else { Ordering::Greater },
+        (Some(_), None) => if o.nulls_first { Ordering::Greater } else { Ordering::Less },
+        (Some(x), Some(y)) => if o.descending { y.cmp(&x) } else { x.cmp(&y) },
+    }
+}
+fn any_opts() -> SortOptions { SortOptions { descending: kani::any(), nulls_first: kani::any() } }
+/// 2-slot validity buffer from a symbolic byte (bits 2.. are arbitrary garbage beyond the length)
+fn nulls2(v: u8) -> NullBuffer { NullBuffer::new(BooleanBuffer::new(Buffer::from(vec![v]), 0, 2)) }
+
+// Contract (C11): fixed::encode (nullable) / encode_not_null on a 2-row column of 4-byte values, rows
+// placed at a non-zero start offset in a zero-initialised buffer (precondition from RowConverter::append:
+// `buffer.resize(total, 0)`; offsets[i+1] holds the write position of row i):
+//  (1) offsets advance by ENCODED_LEN = 5 per row; bytes outside the two rows are unchanged (frame);
+//  (2) a valid row is [1, e0..e3] with e = T::encode(v), bytewise complemented iff descending (the validity
+//      byte is NOT complemented); a null row is [null_sentinel, 0, 0, 0, 0], null_sentinel = 0 iff nulls_first
+//      else 0xFF;
+//  (3) lexicographic comparison of the two full rows == spec_cmp_opt of the optional values under the
+//      options (values ordered by the integer order / the IEEE totalOrder key): both directions, incl. Equal
+//      (rows byte-equal iff both null or both valid with bit-equal values).
+// Values, validity bits (incl. garbage bits beyond the length), values under null slots and both option
+// flags are symbolic.
+macro_rules! row2_enc {
+    ($name:ident, $native:ty, $nullable:expr, $key:expr, $bits:expr) => {
+        #[kani::proof]
+        fn $name() {
+            let vals: [$native; 2] = [kani::any(), kani::any()];
+            let vbyte: u8 = if $nullable { kani::any() } else { 0xFF };
+            let valid = [vbyte & 1 == 1, vbyte & 2 == 2];
+            let opts = any_opts();
+            let (pre, post): (u8, u8) = (kani::any(), kani::any());
+            let mut data = [0u8; 12];
+            data[0] = pre; data[11] = post;
+            let mut offsets = [1usize, 1, 6];
+            if $nullable {
+                let nulls = nulls2(vbyte);
+                encode(&mut data, &mut offsets, &vals, &nulls, opts);
+            } else {
+                encode_not_null(&mut data, &mut offsets, &vals, opts);
+            }
+            // (1)
+            assert!(offsets[0] == 1 && offsets[1] == 6 && offsets[2] == 11);
+            assert!(data[0] == pre && data[11] == post);
+            let r0: [u8; 5] = [data[1], data[2], data[3], data[4], data[5]];
+            let r1: [u8; 5] = [data[6], data[7], data[8], data[9], data[10]];
+            // (2)
+            let rows = [r0, r1];
+            let mut i = 0;
+            while i < 2 {
+                if valid[i] {
+                    let e = vals[i].encode();
+                    assert!(rows[i][0] == 1);
+                    let mut k = 0;
+                    while k < 4 { assert!(rows[i][1 + k] == if opts.descending { !e[k] } else { e[k] }); k += 1; }
+                } else {
+                    assert!(rows[i][0] == if opts.nulls_first { 0 } else { 0xFF });
+                    assert!(rows[i][1] == 0 && rows[i][2] == 0 && rows[i][3] == 0 && rows[i][4] == 0);
+                }
+                i += 1;
+            }
+            // (3)
+            let key = $key;
+            let oa = if valid[0] { Some(key(vals[0])) } else { None };
+            let ob = if valid[1] { Some(key(vals[1])) } else { None };
+            let want = spec_cmp_opt(oa, ob, opts);
+            assert!(lex(&r0, &r1) == want);
+            let bits = $bits;
+            assert!((lex(&r0, &r1) == Ordering::Equal)
+                == ((!valid[0] && !valid[1]) || (valid[0] && valid[1] && bits(vals[0]) == bits(vals[1]))));
+            // (null covers are only meaningful for the nullable entry point)
+            kani::cover!(!$nullable || (!valid[0] && valid[1] && opts.nulls_first && want == Ordering::Less));
+            kani::cover!(!$nullable || (!valid[0] && valid[1] && !opts.nulls_first && want == Ordering::Greater));
+            kani::cover!(valid[0] && valid[1] && opts.descending && want == Ordering::Less);
+            kani::cover!(valid[0] && valid[1] && !opts.descending && want == Ordering::Less);
+            kani::cover!(!$nullable || (!valid[0] && !valid[1]));
+        }
+    };
+}
+// @unit name=row2_enc_i32 props=C11 kind=bounded bound=2_rows_one_i32_column fns=fixed::encode,null_sentinel timeout=300
+row2_enc!(row2_enc_i32, i32, true, |x: i32| x as i64, |x: i32| x as u32);
+// @unit name=row2_enc_f32 props=C11,C10 kind=bounded bound=2_rows_one_f32_column fns=fixed::encode,null_sentinel timeout=300
+row2_enc!(row2_enc_f32, f32, true, |x: f32| key32(x.to_bits()), |x: f32| x.to_bits());
+// @unit name=row2_enc_i32_not_null props=C11 kind=bounded bound=2_rows_one_i32_column fns=fixed::encode_not_null timeout=300
+row2_enc!(row2_enc_i32_not_null, i32, false, |x: i32| x as i64, |x: i32| x as u32);
+
+// Contract (C11): fixed::encode_boolean (nullable) / encode_boolean_not_null on 2 rows: same row structure
+// as above with a 1-byte value part ([1, v] / [1, !v] descending; null = [sentinel, 0]); offsets advance by 2;
+// frame; lexicographic order of the two rows == spec_cmp_opt(false < true) under the options.
+macro_rules! row2_enc_bool {
+    ($name:ident, $nullable:expr) => {
+        #[kani::proof]
+        fn $name() {
+            let bvals: u8 = kani::any();
+            let vals = [bvals & 1 == 1, bvals & 2 == 2];
+            let vbyte: u8 = if $nullable { kani::any() } else { 0xFF };
+            let valid = [vbyte & 1 == 1, vbyte & 2 == 2];
+            let opts = any_opts();
+            let (pre, post): (u8, u8) = (kani::any(), kani::any());
+            let mut data = [0u8; 6];
+            data[0] = pre; data[5] = post;
+            let mut offsets = [1usize, 1, 3];
+            let values = BooleanBuffer::new(Buffer::from(vec![bvals]), 0, 2);
+            if $nullable {
+                let nulls = nulls2(vbyte);
+                encode_boolean(&mut data, &mut offsets, &values, &nulls, opts);
+            } else {
+                encode_boolean_not_null(&mut data, &mut offsets, &values, opts);
+            }
+            assert!(offsets[0] == 1 && offsets[1] == 3 && offsets[2] == 5);
+            assert!(data[0] == pre && data[5] == post);
+            let rows = [[data[1], data[2]], [data[3], data[4]]];
+            let mut i = 0;
+            while i < 2 {
+                if valid[i] {
+                    let e = vals[i] as u8;
+                    assert!(rows[i][0] == 1 && rows[i][1] == if opts.descending { !e } else { e });
+                } else {
+                    assert!(rows[i][0] == if opts.nulls_first { 0 } else { 0xFF } && rows[i][1] == 0);
+                }
+                i += 1;
+            }
+            let oa = if valid[0] { Some(vals[0] as u8) } else { None };
+            let ob = if valid[1] { Some(vals[1] as u8) } else { None };
+            let want = spec_cmp_opt(oa, ob, opts);
+            assert!(lex(&rows[0], &rows[1]) == want);
+            kani::cover!(!$nullable || (!valid[0] && valid[1] && opts.nulls_first));
+            kani::cover!(!$nullable || (valid[0] && !valid[1] && !opts.nulls_first && want == Ordering::Less));
+            kani::cover!(valid[0] && valid[1] && opts.descending && want == Ordering::Less);
+            kani::cover!(valid[0] && valid[1] && !opts.descending && want == Ordering::Less);
+        }
+    };
+}
+// @unit name=row2_enc_bool props=C11 kind=bounded bound=2_rows_one_bool_column fns=fixed::encode_boolean,null_sentinel timeout=300
+row2_enc_bool!(row2_enc_bool, true);
+// @unit name=row2_enc_bool_not_null props=C11 kind=bounded bound=2_rows_one_bool_column fns=fixed::encode_boolean_not_null timeout=300
+row2_enc_bool!(row2_enc_bool_not_null, false);
+
+// Contract (C11): decode_nulls on 2 rows of arbitrary bytes: slot i is valid iff the first byte of row i is
+// exactly 1; the result is None iff every slot is valid; the rows are not consumed.
+// @unit name=dec_nulls2 props=C11 kind=bounded bound=2_rows fns=fixed::decode_nulls timeout=300
+#[kani::proof]
+fn dec_nulls2() {
+    let b0: [u8; 3] = kani::any();
+    let b1: [u8; 3] = kani::any();
+    let rs: [&[u8]; 2] = [&b0, &b1];
+    let n = decode_nulls(&rs);
+    let valid = [b0[0] == 1, b1[0] == 1];
+    assert!(n.is_none() == (valid[0] && valid[1]));
+    if let Some(n) = &n {
+        assert!(n.len() == 2);
+        assert!(n.is_valid(0) == valid[0] && n.is_valid(1) == valid[1]);
+    }
+    assert!(rs[0].len() == 3 && rs[1].len() == 3);
+    kani::cover!(n.is_none());
+    kani::cover!(b0[0] == 0xFF && b1[0] == 1);
+    kani::cover!(b0[0] == 1 && b1[0] == 0);
+}
+
+/// Stub for PrimitiveArray::new (arrow-array, outside the units): identical to
+/// `Self::try_new(values, nulls).unwrap()` except that the Err value (unreachable here: equal lengths) is
+/// leaked instead of being passed to `unwrap_failed` as `&dyn Debug`. Without it the `dyn` drop glue of
+/// ArrowError becomes a candidate target of the `Arc<dyn Allocation>` drop inside `Buffer` and CBMC
+/// unwinds a recursive drop forever (measured: timeout vs 20 s).
+fn stub_prim_new<T: ArrowPrimitiveType>(values: ScalarBuffer<T::Native>, nulls: Option<NullBuffer>) -> PrimitiveArray<T> {
+    match PrimitiveArray::<T>::try_new(values, nulls) {
+        Ok(a) => a,
+        Err(e) => { std::mem::forget(e); panic!("PrimitiveArray::new failed") }
+    }
+}
+use arrow_buffer::ScalarBuffer;
+
+// Contract (C11): decode_primitive inverts the documented row layout. Two rows are built in the harness from
+// the format definition: [validity byte, T::encode(v) complemented iff descending] followed by one foreign
+// byte; validity bytes are CONCRETE per instance (V0, V1; 1 = valid, anything else = null: measured, symbolic
+// validity bytes make the Option<NullBuffer> result symbolic and CBMC does not finish), values, bytes under
+// null slots, `descending`, `nulls_first` symbolic. Then: len 2; slot i valid iff Vi == 1; the value of a
+// valid slot is bit-identical to v_i (NaN payloads, -0.0 for f32); every row slice is advanced by exactly
+// ENCODED_LEN = 5 bytes (the foreign byte is what remains). Together with row2_enc_* (exact row bytes) this
+// is the round trip decode(encode(column)) == column.
+// Stubs: alloc::fmt::format (error text), PrimitiveArray::new -> stub_prim_new (see above). Array forgotten.
+macro_rules! row2_dec {
+    ($name:ident, $native:ty, $arrow:ty, $dt:expr, $v0:expr, $v1:expr, $bits:expr) => {
+        #[kani::proof]
+        #[kani::stub(alloc::fmt::format, stub_format)]
+        #[kani::stub(arrow_array::array::PrimitiveArray::new, stub_prim_new)]
+        fn $name() {
+            let vals: [$native; 2] = [kani::any(), kani::any()];
+            let vb: [u8; 2] = [$v0, $v1];
+            let opts = any_opts();
+            let mut b = [[0u8; 6]; 2];
+            let tail: [u8; 2] = [kani::any(), kani::any()];
+            let mut i = 0;
+            while i < 2 {
+                b[i][0] = vb[i];
+                if vb[i] == 1 {
+                    let e = vals[i].encode();
+                    let mut k = 0;
+                    while k < 4 { b[i][1 + k] = if opts.descending { !e[k] } else { e[k] }; k += 1; }
+                } else {
+                    let junk: [u8; 4] = kani::any();
+                    let mut k = 0;
+                    while k < 4 { b[i][1 + k] = junk[k]; k += 1; }
+                }
+                b[i][5] = tail[i];
+                i += 1;
+            }
+            let (b0, b1) = (b[0], b[1]);
+            let mut rs: [&[u8]; 2] = [&b0, &b1];
+            let arr = decode_primitive::<$arrow>(&mut rs, $dt, opts);
+            assert!(arr.len() == 2);
+            let bits = $bits;
+            let mut i = 0;
+            while i < 2 {
+                assert!(arr.is_valid(i) == (vb[i] == 1));
+                if vb[i] == 1 { assert!(bits(arr.value(i)) == bits(vals[i])); }
+                assert!(rs[i].len() == 1 && rs[i][0] == tail[i]);
+                i += 1;
+            }
+            kani::cover!(opts.descending);
+            kani::cover!(!opts.descending);
+            std::mem::forget(arr);
+        }
+    };
+}
+// @unit name=row2_dec_i32_vv props=C11 kind=bounded bound=2_rows_validity_bytes_1_1 fns=fixed::decode_primitive,fixed::decode_nulls,fixed::split_off,FromSlice::from_slice mem=3 timeout=600
+row2_dec!(row2_dec_i32_vv, i32, Int32Type, DataType::Int32, 1, 1, |x: i32| x as u32);
+// @unit name=row2_dec_i32_vn props=C11 kind=bounded bound=2_rows_validity_bytes_1_0 fns=fixed::decode_primitive,fixed::decode_nulls,fixed::split_off,FromSlice::from_slice mem=3 timeout=600
+row2_dec!(row2_dec_i32_vn, i32, Int32Type, DataType::Int32, 1, 0, |x: i32| x as u32);
+// @unit name=row2_dec_i32_nv props=C11 kind=bounded bound=2_rows_validity_bytes_255_1 fns=fixed::decode_primitive,fixed::decode_nulls,fixed::split_off,FromSlice::from_slice mem=3 timeout=600
+row2_dec!(row2_dec_i32_nv, i32, Int32Type, DataType::Int32, 0xFF, 1, |x: i32| x as u32);
+// @unit name=row2_dec_i32_nn props=C11 kind=bounded bound=2_rows_validity_bytes_0_255 fns=fixed::decode_primitive,fixed::decode_nulls tier=thorough mem=3 timeout=600
+row2_dec!(row2_dec_i32_nn, i32, Int32Type, DataType::Int32, 0, 0xFF, |x: i32| x as u32);
+// @unit name=row2_dec_f32_vn props=C11 kind=bounded bound=2_rows_validity_bytes_1_255 fns=fixed::decode_primitive,fixed::decode_nulls tier=thorough mem=3 timeout=600
+row2_dec!(row2_dec_f32_vn, f32, Float32Type, DataType::Float32, 1, 0xFF, |x: f32| x.to_bits());
+
+// Contract (C11): decode_bool inverts the documented boolean row layout ([validity, v] / [validity, !v] when
+// descending) for 2 rows with concrete validity bytes, symbolic values / options / bytes under null slots /
+// trailing byte: len 2, validity = (Vi == 1), values of valid slots returned, each row advanced by 2 bytes.
+macro_rules! row2_dec_bool {
+    ($name:ident, $v0:expr, $v1:expr) => {
+        #[kani::proof]
+        #[kani::stub(alloc::fmt::format, stub_format)]
+        fn $name() {
+            let vals: [bool; 2] = [kani::any(), kani::any()];
+            let vb: [u8; 2] = [$v0, $v1];
+            let opts = any_opts();
+            let tail: [u8; 2] = [kani::any(), kani::any()];
+            let mut b = [[0u8; 3]; 2];
+            let mut i = 0;
+            while i < 2 {
+                b[i][0] = vb[i];
+                let e = vals[i] as u8;
+                b[i][1] = if vb[i] == 1 { if opts.descending { !e } else { e } } else { kani::any() };
+                b[i][2] = tail[i];
+                i += 1;
+            }
+            let (b0, b1) = (b[0], b[1]);
+            let mut rs: [&[u8]; 2] = [&b0, &b1];
+            let arr = decode_bool(&mut rs, opts);
+            assert!(arr.len() == 2);
+            let mut i = 0;
+            while i < 2 {
+                assert!(arr.is_valid(i) == (vb[i] == 1));
+                if vb[i] == 1 { assert!(arr.value(i) == vals[i]); }
+                assert!(rs[i].len() == 1 && rs[i][0] == tail[i]);
+                i += 1;
+            }
+            kani::cover!(opts.descending && vals[0]);
+            kani::cover!(!opts.descending && !vals[0]);
+            std::mem::forget(arr);
+        }
+    };
+}
+// @unit name=row2_dec_bool_vv props=C11 kind=bounded bound=2_rows_validity_bytes_1_1 fns=fixed::decode_bool,fixed::split_off mem=3 timeout=600
+row2_dec_bool!(row2_dec_bool_vv, 1, 1);
+// @unit name=row2_dec_bool_vn props=C11 kind=bounded bound=2_rows_validity_bytes_1_255 fns=fixed::decode_bool,fixed::split_off mem=3 timeout=600
+row2_dec_bool!(row2_dec_bool_vn, 1, 0xFF);
+// @unit name=row2_dec_bool_nv props=C11 kind=bounded bound=2_rows_validity_bytes_0_1 fns=fixed::decode_bool,fixed::split_off tier=thorough mem=3 timeout=600
+row2_dec_bool!(row2_dec_bool_nv, 0, 1);
+
+// Contract (C11): decode_bool on 65 rows -- reaches the 64-rows-per-word chunk loop AND the remainder block
+// (the 2-row units only reach the remainder). Rows are 2-byte slices of one symbolic buffer; validity bytes
+// are concrete (all valid except row 3 = null sentinel 0xFF), value bytes and `descending` symbolic. For a
+// symbolic row index i: validity == (i != 3), value == (value byte == encode(true) complemented iff
+// descending, i.e. 1 / 0xFE), and every row slice is consumed (advanced by 2).
+// @unit name=dec_bool_65 props=C11 kind=bounded bound=65_rows_validity_bytes_concrete fns=fixed::decode_bool,fixed::split_off tier=thorough mem=4 timeout=1500
+#[kani::proof]
+#[kani::stub(alloc::fmt::format, stub_format)]
+fn dec_bool_65() {
+    let mut b: [u8; 130] = kani::any();
+    let mut k = 0;
+    while k < 65 { b[2 * k] = if k == 3 { 0xFF } else { 1 }; k += 1; }
+    let opts = any_opts();
+    let mut rs: [&[u8]; 65] = core::array::from_fn(|i| &b[2 * i..2 * i + 2]);
+    let arr = decode_bool(&mut rs, opts);
+    assert!(arr.len() == 65);
+    let i: usize = kani::any();
+    kani::assume(i < 65);
+    assert!(arr.is_valid(i) == (i != 3));
+    let t: u8 = if opts.descending { 0xFE } else { 1 };
+    if i != 3 { assert!(arr.value(i) == (b[2 * i + 1] == t)); }
+    assert!(rs[i].len() == 0);
+    kani::cover!(i == 63 && arr.value(i));
+    kani::cover!(i == 64 && arr.value(i) && opts.descending);
+    kani::cover!(i == 0 && !arr.value(i));
+    std::mem::forget(arr);
+}
+
+// Contract (C11): decode_bool on 129 rows = two full 64-row words + a 1-row remainder: additionally to
+// dec_bool_65 this distinguishes per-chunk accumulators that are not reset between chunks (a value / validity
+// bit of chunk 0 leaking into chunk 1). Same contract; row 3 and row 70 are null, row 67 (= 64 + 3) is valid.
+// @unit name=dec_bool_129 props=C11 kind=bounded bound=129_rows_validity_bytes_concrete fns=fixed::decode_bool,fixed::split_off tier=thorough mem=6 timeout=1500 note=not_confirmed_under_load
+#[kani::proof]
+#[kani::stub(alloc::fmt::format, stub_format)]
+fn dec_bool_129() {
+    let mut b: [u8; 258] = kani::any();
+    let mut k = 0;
+    while k < 129 { b[2 * k] = if k == 3 || k == 70 { 0xFF } else { 1 }; k += 1; }
+    let opts = any_opts();
+    let mut rs: [&[u8]; 129] = core::array::from_fn(|i| &b[2 * i..2 * i + 2]);
+    let arr = decode_bool(&mut rs, opts);
+    assert!(arr.len() == 129);
+    let i: usize = kani::any();
+    kani::assume(i < 129);
+    assert!(arr.is_valid(i) == (i != 3 && i != 70));
+    let t: u8 = if opts.descending { 0xFE } else { 1 };
+    if i != 3 && i != 70 { assert!(arr.value(i) == (b[2 * i + 1] == t)); }
+    assert!(rs[i].len() == 0);
+    kani::cover!(i == 67 && !arr.value(i) && b[2 * 3 + 1] == t);   // chunk-0 bit 3 set, chunk-1 bit 3 clear
+    kani::cover!(i == 128 && arr.value(i));
+    kani::cover!(i == 64 && arr.value(i) && b[1] != t);
+    std::mem::forget(arr);
+}
